@@ -7,6 +7,7 @@ python3 /verif/translator/extract_formulas.py /tmp/empty_src /verif/lean/Decaf/G
 python3 /verif/translator/extract_opforms.py /tmp/empty_src /verif/lean/Decaf/Generated/OpForms.lean
 python3 /verif/translator/extract_convforms.py /tmp/empty_src /verif/lean/Decaf/Generated/ConvForms.lean
 python3 /verif/translator/extract_lazy.py /tmp/empty_src /verif/lean/Decaf/Generated/Lazy.lean
+python3 /verif/translator/extract_fieldfns.py /tmp/empty_src /verif/lean/Decaf/Generated/FieldFns.lean
 T=""; for p in C01 C02 C03 C04 C05 C06 C07 C08 C09 C10 C11 C12 C13 C14; do T="$T Decaf.Props.Translated.$p"; done
 ( cd /verif/lean && lake build $T 2>&1 | grep -E "^error|success" | head -20 )
 rm -rf /tmp/empty_src
@@ -14,3 +15,4 @@ python3 /verif/translator/extract_formulas.py /repo /verif/lean/Decaf/Generated/
 python3 /verif/translator/extract_opforms.py /repo /verif/lean/Decaf/Generated/OpForms.lean >/dev/null
 python3 /verif/translator/extract_convforms.py /repo /verif/lean/Decaf/Generated/ConvForms.lean >/dev/null
 python3 /verif/translator/extract_lazy.py /repo /verif/lean/Decaf/Generated/Lazy.lean >/dev/null
+python3 /verif/translator/extract_fieldfns.py /repo /verif/lean/Decaf/Generated/FieldFns.lean >/dev/null
